@@ -329,7 +329,7 @@ fn episode(ctx: &Ctx, f: Focus, case: u64, out: &mut Out) -> Result<(), (Fail, S
                         e.check_all("after a merge with a failing hint-file call")?;
                         compare_hint_recovery(&mut e, ctx, case, out)?;
                     }
-                    Focus::C19 if case % 5 == 2 && e.r.chance(1, 2) => {
+                    Focus::C19 | Focus::C05 if case % 5 == 2 && e.r.chance(1, 2) => {
                         // a merge during which one call fails (create, write, fsync or unlink, on a
                         // data or a hint file). It is still a crash-free history: the bookkeeping
                         // has to be true after the merge was given up, and again after the next
@@ -348,15 +348,21 @@ fn episode(ctx: &Ctx, f: Focus, case: u64, out: &mut Out) -> Result<(), (Fail, S
                         out.count(if hit { "merges_with_a_failed_call" } else { "merges_armed_but_fault_not_reached" }, 1);
                         let _ = res;
                         e.check_all("after a merge with a failing call")?;
-                        let (files, _) = check_accounting(&e, "after a merge with a failing call")?;
-                        out.count("files_compared", files);
-                        e.do_reopen(None)?;
-                        e.check_all("after a merge with a failing call and a reopen")?;
-                        let (files, _) = check_accounting(&e, "after a merge with a failing call and a reopen")?;
-                        out.count("files_compared", files);
-                        snapshots += 2;
-                        if hit {
-                            out.count("snapshots_after_a_failed_merge_and_reopen", 1);
+                        if f == Focus::C05 {
+                            // C05: a compaction that was given up changes no more than one that
+                            // completed; the episode goes on writing and reopens later as usual
+                            merged_since_reopen = true;
+                        } else {
+                            let (files, _) = check_accounting(&e, "after a merge with a failing call")?;
+                            out.count("files_compared", files);
+                            e.do_reopen(None)?;
+                            e.check_all("after a merge with a failing call and a reopen")?;
+                            let (files, _) = check_accounting(&e, "after a merge with a failing call and a reopen")?;
+                            out.count("files_compared", files);
+                            snapshots += 2;
+                            if hit {
+                                out.count("snapshots_after_a_failed_merge_and_reopen", 1);
+                            }
                         }
                     }
                     _ => {
